@@ -1,17 +1,22 @@
 (* C08, part 1: the encoder is total.  Every encoder function, from EVERY state and for EVERY value,
    either fails with an error (or EIllTyped) or succeeds having only APPENDED octets to the buffer:
-   it never panics.  The two subtraction sites (length slots) and the prefix loop are the
-   interesting cases. *)
+   it never panics.  The two subtraction sites (length slots) are the interesting cases;
+   the address writer (significant octets, at least a minimum) has no arithmetic that can fail. *)
 From DNS Require Import Model.Dec Model.Enc Proofs.ListN.
 Require Import ZArith ZifyBool ZifyN ZifyNat.
 Local Open Scope N_scope.
 Ltac Zify.zify_post_hook ::= Z.div_mod_to_equations.
 
 (* ---- generated constants: these break when the Rust source changes ---- *)
-Lemma OP_enc_prefix4_val : OP_enc_prefix4 = CLt. Proof. reflexivity. Qed.
-Lemma OP_enc_prefix6_val : OP_enc_prefix6 = CLt. Proof. reflexivity. Qed.
-Lemma ENC_PREFIX_STEP4_val : ENC_PREFIX_STEP4 = 8. Proof. reflexivity. Qed.
-Lemma ENC_PREFIX_STEP6_val : ENC_PREFIX_STEP6 = 8. Proof. reflexivity. Qed.
+Lemma OP_enc_addr_significant_val : OP_enc_addr_significant = CNe. Proof. reflexivity. Qed.
+Lemma ENC_ADDR_SIGNIFICANT_ZERO_val : ENC_ADDR_SIGNIFICANT_ZERO = 0. Proof. reflexivity. Qed.
+Lemma ENC_ADDR_SIGNIFICANT_NONE_val : ENC_ADDR_SIGNIFICANT_NONE = 0. Proof. reflexivity. Qed.
+Lemma ENC_ADDR_SIGNIFICANT_INC_val : ENC_ADDR_SIGNIFICANT_INC = 1. Proof. reflexivity. Qed.
+Lemma ENC_ADDR_TAKE_MAX_val : ENC_ADDR_TAKE_MAX = true. Proof. reflexivity. Qed.
+Lemma ENC_ECS_LENGTH_OF_SOURCE_val : ENC_ECS_LENGTH_OF_SOURCE = true. Proof. reflexivity. Qed.
+Lemma ENC_ECS_LENGTH_ADD_val : ENC_ECS_LENGTH_ADD = 7. Proof. reflexivity. Qed.
+Lemma ENC_ECS_LENGTH_DIV_val : ENC_ECS_LENGTH_DIV = 8. Proof. reflexivity. Qed.
+Lemma ENC_APL_MINIMUM_LENGTH_val : ENC_APL_MINIMUM_LENGTH = 0. Proof. reflexivity. Qed.
 Lemma OP_apl_len_val : OP_apl_len = CLt. Proof. reflexivity. Qed.
 Lemma APL_NEGATION_MASK_val : APL_NEGATION_MASK = 128. Proof. reflexivity. Qed.
 
@@ -232,34 +237,106 @@ Lemma ext_enc_domain_name n : ext (enc_domain_name n).
 Proof. unfold enc_domain_name. apply ext_bind; [apply ext_log_name|]. intros _. apply ext_enc_name_loop. Qed.
 #[export] Hint Resolve ext_enc_domain_name : extdb.
 
-(* ---- the prefix loop: `prefix_length -= 8` happens only when prefix_length >= 8 ---- *)
-Lemma addr_prefix_loop_safe oct : forall prefix,
-  match addr_prefix_loop CLt 8 oct prefix with
-  | Ok b => True | _ => False
-  end.
+(* ---- the address writer: the octets up to the last non-zero one, but at least a minimum ---- *)
+Lemma dropN_S_cons {A} (n : N) (x : A) (l : list A) : dropN (n + 1) (x :: l) = dropN n l.
+Proof. unfold dropN. replace (N.to_nat (n + 1)) with (S (N.to_nat n)) by lia. reflexivity. Qed.
+Lemma nthN_S_cons {A} (n : N) (x : A) (l : list A) : nthN (n + 1) (x :: l) = nthN n l.
+Proof. unfold nthN. replace (N.to_nat (n + 1)) with (S (N.to_nat n)) by lia. reflexivity. Qed.
+
+(* octets.iter().rposition(|b| b != 0).map_or(0, |i| i + 1), as a recursion from the front *)
+Lemma addr_significant_nil : addr_significant [] = 0.
+Proof. unfold addr_significant. cbn [addr_rposition]. apply ENC_ADDR_SIGNIFICANT_NONE_val. Qed.
+Lemma addr_significant_cons (b : N) (r : bytes) :
+  addr_significant (b :: r) = if (addr_significant r =? 0) && (b =? 0) then 0 else addr_significant r + 1.
 Proof.
-  induction oct as [|b r IH]; intros prefix; cbn [addr_prefix_loop]; [exact I|].
-  cbn [cmp_apply]. destruct (prefix <? 8) eqn:E; [exact I|].
-  specialize (IH (prefix - 8)). destruct (addr_prefix_loop CLt 8 r (prefix - 8)); try contradiction. exact I.
+  unfold addr_significant. cbn [addr_rposition].
+  rewrite OP_enc_addr_significant_val, ENC_ADDR_SIGNIFICANT_ZERO_val, ENC_ADDR_SIGNIFICANT_NONE_val,
+    ENC_ADDR_SIGNIFICANT_INC_val. cbn [cmp_apply].
+  destruct (addr_rposition r) as [i|].
+  - destruct (i + 1 =? 0) eqn:E; [apply N.eqb_eq in E; lia|]. reflexivity.
+  - change (0 =? 0) with true. cbn [andb]. destruct (b =? 0); reflexivity.
 Qed.
 
-Lemma rr_address_with_prefix_put a prefix : exists b, forall s, rr_address_with_prefix a prefix s = put b s.
+(* it is the index of the last non-zero octet plus one, 0 for the all-zero address *)
+Lemma addr_significant_spec : forall l : bytes,
+  addr_significant l <= lenN l /\
+  forallb (N.eqb 0) (dropN (addr_significant l) l) = true /\
+  (addr_significant l = 0 \/ exists x, nthN (addr_significant l - 1) l = Some x /\ x <> 0).
 Proof.
-  unfold rr_address_with_prefix.
-  rewrite OP_enc_prefix4_val, OP_enc_prefix6_val, ENC_PREFIX_STEP4_val, ENC_PREFIX_STEP6_val.
-  destruct (a_fam a =? 1).
-  - pose proof (addr_prefix_loop_safe (a_oct a) prefix) as H.
-    destruct (addr_prefix_loop CLt 8 (a_oct a) prefix) as [b| | |]; try contradiction. exists b. reflexivity.
-  - pose proof (addr_prefix_loop_safe (a_oct a) prefix) as H.
-    destruct (addr_prefix_loop CLt 8 (a_oct a) prefix) as [b| | |]; try contradiction. exists b. reflexivity.
+  induction l as [|b r (IH1 & IH2 & IH3)].
+  - rewrite addr_significant_nil. split; [reflexivity|]. split; [reflexivity|left; reflexivity].
+  - rewrite addr_significant_cons, lenN_cons.
+    destruct (addr_significant r =? 0) eqn:Ec; [apply N.eqb_eq in Ec|apply N.eqb_neq in Ec];
+    destruct (b =? 0) eqn:Eb; [apply N.eqb_eq in Eb|apply N.eqb_neq in Eb| |]; cbn [andb].
+    + split; [lia|]. split; [|left; reflexivity].
+      rewrite Ec in IH2. change (dropN 0 r) with r in IH2. change (dropN 0 (b :: r)) with (b :: r).
+      cbn [forallb]. rewrite IH2, Eb. reflexivity.
+    + split; [lia|]. rewrite dropN_S_cons. split; [exact IH2|]. right. exists b.
+      rewrite Ec. split; [reflexivity|exact Eb].
+    + split; [lia|]. rewrite dropN_S_cons. split; [exact IH2|]. right.
+      destruct IH3 as [IH3|(x & Hx1 & Hx2)]; [contradiction|]. exists x. split; [|exact Hx2].
+      replace (addr_significant r + 1 - 1) with (addr_significant r - 1 + 1) by lia.
+      rewrite nthN_S_cons. exact Hx1.
+    + split; [lia|]. rewrite dropN_S_cons. split; [exact IH2|]. right.
+      destruct IH3 as [IH3|(x & Hx1 & Hx2)]; [contradiction|]. exists x. split; [|exact Hx2].
+      replace (addr_significant r + 1 - 1) with (addr_significant r - 1 + 1) by lia.
+      rewrite nthN_S_cons. exact Hx1.
+Qed.
+Lemma addr_significant_le (l : bytes) : addr_significant l <= lenN l.
+Proof. exact (proj1 (addr_significant_spec l)). Qed.
+
+(* every octet dropped by a cut at or beyond it is zero, and it is the least such cut *)
+Lemma addr_significant_dropped : forall (l : bytes) (k : N),
+  addr_significant l <= k -> forallb (N.eqb 0) (dropN k l) = true.
+Proof.
+  induction l as [|b r IH]; intros k Hk.
+  - unfold dropN. rewrite skipn_nil. reflexivity.
+  - rewrite addr_significant_cons in Hk.
+    destruct (addr_significant r =? 0) eqn:Ec; [apply N.eqb_eq in Ec|apply N.eqb_neq in Ec];
+    destruct (b =? 0) eqn:Eb; cbn [andb] in Hk.
+    + destruct (N.eq_dec k 0) as [->|Hk0].
+      * change (dropN 0 (b :: r)) with (b :: r). cbn [forallb]. rewrite N.eqb_sym, Eb.
+        apply (IH 0). lia.
+      * replace k with (k - 1 + 1) by lia. rewrite dropN_S_cons. apply IH. lia.
+    + replace k with (k - 1 + 1) by lia. rewrite dropN_S_cons. apply IH. lia.
+    + replace k with (k - 1 + 1) by lia. rewrite dropN_S_cons. apply IH. lia.
+    + replace k with (k - 1 + 1) by lia. rewrite dropN_S_cons. apply IH. lia.
+Qed.
+Lemma addr_significant_least : forall (l : bytes) (k : N),
+  forallb (N.eqb 0) (dropN k l) = true -> addr_significant l <= k.
+Proof.
+  induction l as [|b r IH]; intros k Hz.
+  - rewrite addr_significant_nil. lia.
+  - rewrite addr_significant_cons.
+    destruct (N.eq_dec k 0) as [->|Hk0].
+    + change (dropN 0 (b :: r)) with (b :: r) in Hz. cbn [forallb] in Hz.
+      apply andb_true_iff in Hz. destruct Hz as [Hb Hr]. apply N.eqb_eq in Hb. subst b.
+      specialize (IH 0 Hr). assert (addr_significant r = 0) as -> by lia. reflexivity.
+    + replace k with (k - 1 + 1) in Hz by lia. rewrite dropN_S_cons in Hz. specialize (IH (k - 1) Hz).
+      destruct ((addr_significant r =? 0) && (b =? 0)); lia.
 Qed.
 
-Lemma ext_rr_address_with_prefix a prefix : ext (rr_address_with_prefix a prefix).
+(* (usize::from(source_prefix_length) + 7) / 8 *)
+Lemma ecs_minimum_length_eq (src pfx : N) : ecs_minimum_length src pfx = (src + 7) / 8.
 Proof.
-  destruct (rr_address_with_prefix_put a prefix) as (b & H).
+  unfold ecs_minimum_length.
+  rewrite ENC_ECS_LENGTH_OF_SOURCE_val, ENC_ECS_LENGTH_ADD_val, ENC_ECS_LENGTH_DIV_val. reflexivity.
+Qed.
+
+(* take(max(significant, minimum_length)): no arithmetic that could fail, a plain append *)
+Lemma rr_address_with_length_eq (a : addr) (m : N) (s : est) :
+  rr_address_with_length a m s = put (takeN (N.max (addr_significant (a_oct a)) m) (a_oct a)) s.
+Proof. unfold rr_address_with_length. rewrite ENC_ADDR_TAKE_MAX_val. reflexivity. Qed.
+
+Lemma rr_address_with_length_put a m : exists b, forall s, rr_address_with_length a m s = put b s.
+Proof. eexists. intros s. apply rr_address_with_length_eq. Qed.
+
+Lemma ext_rr_address_with_length a m : ext (rr_address_with_length a m).
+Proof.
+  destruct (rr_address_with_length_put a m) as (b & H).
   apply (ext_pointwise (put b)); [intros s; symmetry; apply H|apply ext_put].
 Qed.
-#[export] Hint Resolve ext_rr_address_with_prefix : extdb.
+#[export] Hint Resolve ext_rr_address_with_length : extdb.
 
 (* ---- generic field writer ---- *)
 Lemma ext_write_field k v : ext (write_field k v).
@@ -311,7 +388,7 @@ Qed.
 Lemma ext_enc_apitem i : ext (enc_apitem i).
 Proof.
   unfold enc_apitem. apply ext_bind; [apply ext_eu16|]. intros _. apply ext_bind; [apply ext_eu8|]. intros _.
-  destruct (rr_address_with_prefix_put (i_addr i) (i_prefix i)) as (b & Hput).
+  destruct (rr_address_with_length_put (i_addr i) ENC_APL_MINIMUM_LENGTH) as (b & Hput).
   intros s. unfold ebind at 1. cbn [buf_len]. unfold ebind at 1. cbn [eu8 put].
   unfold ebind. rewrite Hput. cbn [put e_buf e_idx e_names].
   rewrite (set_address_length_index_exact _ (e_buf s) (0 mod 256) b); [|cbn [e_buf]; rewrite <- app_assoc; reflexivity].
